@@ -32,7 +32,7 @@ pub mod jobs {
         #[verifier::external_body] pub fn to_string(&self) -> String { unimplemented!() }
     }
 }
-pub struct RuntimeOptions { pub return_last_failure_from_pipeline: bool, pub interactive: bool }
+// RuntimeOptions: the real struct of brush-core/src/options.rs is extracted by the unit
 #[verifier::external_body] pub struct ShellRest { _p: u8 }
 // projection: the three pieces of shell state the function writes, as plain fields
 pub struct Shell { pub last_exit_status: u8, pub last_pipeline_statuses: Vec<u8>, pub opts: RuntimeOptions, pub rest: ShellRest }
